@@ -10,20 +10,36 @@ let parse_op toks = match toks with
   | ["hmac"; k; m] -> OHmac (bytes_of_hex k, bytes_of_hex m)
   | _ -> failwith ("bad op: " ^ String.concat " " toks)
 
+(* updrep <hex> <times> = <times> consecutive OUpdate of the same chunk (long messages without long op lines).
+   updrepx is the same call on the implementation, but too long for the extracted model and spec (~10 KB/s):
+   they print wildcards from there to the end of the case, and checks/C17.py judges the case with python hashlib. *)
+let rec repeat_op n f x = if n <= 0 then x else repeat_op (n - 1) f (f x)
+
 let res_str r = match r with None -> "-" | Some [] -> "-" | Some d -> hex_of_bytes d
 
 let () =
   let mode = Sys.argv.(1) and file = Sys.argv.(2) in
   if mode = "model" then
-    run_cases file (fun _ -> init)
+    run_cases file (fun _ -> Some init)
       (fun st _ toks ->
-         let (st', r) = step st (parse_op toks) in
-         emit (Printf.sprintf "%s | %s %s | %s" (res_str r) (dec_of_z st'.count)
-                 (String.concat "," (List.map (fun w -> Printf.sprintf "%08x" (int_of_z w)) st'.state))
-                 (hex_of_bytes st'.buffer));
-         st')
+         match st, toks with
+         | None, _ | _, ("updrepx" :: _) -> emit "? | ? ? | ?"; None
+         | Some st, _ ->
+           let (st', r) = match toks with
+             | ["updrep"; h; n] -> let d = bytes_of_hex h in
+                 (repeat_op (int_of_string n) (fun s -> fst (step s (OUpdate d))) st, None)
+             | _ -> step st (parse_op toks) in
+           emit (Printf.sprintf "%s | %s %s | %s" (res_str r) (dec_of_z st'.count)
+                   (String.concat "," (List.map (fun w -> Printf.sprintf "%08x" (int_of_z w)) st'.state))
+                   (hex_of_bytes st'.buffer));
+           Some st')
       (fun _ -> ())
   else
-    run_cases file (fun _ -> [])
-      (fun m _ toks -> let (m', r) = spec_step m (parse_op toks) in emit (res_str r); m')
+    run_cases file (fun _ -> Some [])
+      (fun m _ toks ->
+         match m, toks with
+         | None, _ | _, ("updrepx" :: _) -> emit "?"; None
+         | Some m, ["updrep"; h; n] -> let d = bytes_of_hex h in
+             emit "-"; Some (repeat_op (int_of_string n) (fun m -> fst (spec_step m (OUpdate d))) m)
+         | Some m, _ -> let (m', r) = spec_step m (parse_op toks) in emit (res_str r); Some m')
       (fun _ -> ())
